@@ -240,7 +240,7 @@ wait:
 					break wait
 				}
 			}
-		case <-time.After(2 * time.Second):
+		case <-time.After(8 * time.Second): // only a client that neither ends nor reports a second time waits this long
 			break wait
 		}
 	}
